@@ -437,6 +437,8 @@ BUILTIN_EXC_BASES = {
     "SystemExit": "BaseException",
     "regex.error": "Exception",
     "re.error": "Exception",
+    "decimal.DecimalException": "ArithmeticError",
+    "decimal.InvalidOperation": "decimal.DecimalException",
 }
 
 
